@@ -81,7 +81,7 @@ func codecRoundTrip(s string) string {
 func checkC14(c *harness.Check) {
 	mustAnchors(c)
 	clocks := []int{0, 1, 49, 99, 100, 101, 1<<31 - 1}
-	c.Rule = fmt.Sprintf("(a) every node of the BFS closures and of the castling/e.p./promotion families x half-move clocks %v x full-move numbers %v x both sides to move: the reference FEN decodes and re-encodes to the same string and Decode(Encode(position value)) is the identical struct/side/clocks; (b) every Move/TakeBack sequence to depth n through Engine.Reset/Move/TakeBack from fortress, castling, e.p., promotion and start roots with non-trivial clocks: Engine.Position() equals the reference game's FEN after every operation. distinct_nontrivial = distinct FEN strings round-tripped", clocks, clocks)
+	c.Rule = fmt.Sprintf("(a) every node of the BFS closures and of the castling/e.p./promotion families x half-move clocks %v x full-move numbers %v x both sides to move: the reference FEN decodes and re-encodes to the same string and Decode(Encode(position value)) is the identical struct/side/clocks; (b) every Move/TakeBack sequence to depth n through Engine.Reset/Move/TakeBack from fortress, castling, e.p., promotion and start roots with non-trivial clocks: Engine.Position() equals the reference game's FEN after every operation; (c) the engine set up on four positions x both sides to move x 10 half-move clocks x 7 full-move numbers: reports the FEN it was given, the standard FEN after one move, the given FEN after taking it back. distinct_nontrivial = distinct FEN strings round-tripped", clocks, clocks)
 	visit := func(n *Node) {
 		for _, white := range []bool{true, false} {
 			q := *n.Ref
@@ -192,6 +192,51 @@ func checkC14(c *harness.Check) {
 		}
 		rec(j.depth)
 	})
+	// (c) the engine set up with every combination of clocks and both sides to move: it reports the
+	// FEN it was given, the standard FEN after one move, and the given FEN again after taking it back
+	var sets []string
+	for _, body := range []string{"k7/p7/P7/8/8/7p/7P/7K %s - -", "r3k2r/8/8/8/8/8/8/R3K2R %s KQkq -", "rnbqkbnr/pppppppp/8/8/8/8/PPPPPPPP/RNBQKBNR %s KQkq -", "4k3/8/8/8/8/8/8/R3K3 %s Q -"} {
+		for _, side := range []string{"w", "b"} {
+			for _, hm := range []int{0, 1, 2, 3, 49, 79, 98, 99, 100, 101} {
+				for _, fm := range []int{0, 1, 2, 40, 50, 140, 1<<31 - 2} {
+					sets = append(sets, fmt.Sprintf(body+" %d %d", side, hm, fm))
+				}
+			}
+		}
+	}
+	harness.Parallel(len(sets), func(i int) {
+		f := sets[i]
+		ctx := context.Background()
+		g, err := ref.GameFromFEN(f)
+		if err != nil {
+			return
+		}
+		e := newPlainEngine(ctx)
+		if err := e.Reset(ctx, f); err != nil {
+			c.Violation(cc.sig("C14/reset", f), "Reset rejects the canonical FEN: "+err.Error(), "C14/engine", map[string]any{"FEN": f, "Ops": []string{}})
+			return
+		}
+		c.Evaluations.Add(1)
+		c.States.Add(1)
+		if got := e.Position(); got != f {
+			c.Violation(cc.sig("C14/engine-setup", f), fmt.Sprintf("set up with %q the engine reports %q", f, got), "C14/engine", map[string]any{"FEN": f, "Ops": []string{}})
+			return
+		}
+		if ms := g.Cur().Legal(); len(ms) > 0 {
+			if err := e.Move(ctx, ms[0].String()); err == nil {
+				g.Push(ms[0])
+				if got, want := e.Position(), g.FEN(); got != want {
+					c.Violation(cc.sig("C14/engine-setup", f+" "+ms[0].String()), fmt.Sprintf("engine reports %q, standard FEN is %q after %s from %s", got, want, ms[0], f), "C14/engine", map[string]any{"FEN": f, "Ops": []string{ms[0].String()}})
+				}
+				if err := e.TakeBack(ctx); err == nil {
+					if got := e.Position(); got != f {
+						c.Violation(cc.sig("C14/engine-setup", f+" takeback"), fmt.Sprintf("after a move and its take-back the engine reports %q, set up with %q", got, f), "C14/engine", map[string]any{"FEN": f, "Ops": []string{ms[0].String(), "takeback"}})
+					}
+				}
+			}
+		}
+	})
+	c.SetExtra("engine_setups_clock_grid", len(sets))
 	c.Sample(map[string]any{"engine_history": "r3k2r/8/8/8/8/8/8/R3K2R w KQkq - 12 30", "ops": []string{"e1g1", "e8c8", "takeback"}, "expect": "2kr3r/8/8/8/8/8/8/R4RK1 w - - 14 31 then back to clock 13"})
 	c.Finish()
 }
